@@ -166,6 +166,23 @@ def coq_props(prop, timeout=900):
     return ok, res, out, theorems
 
 
+def coqchk(files, timeout=3000):
+    """Re-check the compiled Props modules and everything they depend on with the independent checker and
+    return (ok, one-line summary, log): ok iff coqchk succeeds and reports no axiom, no type-in-type, no unsafe
+    (co)fixpoint and no assumed positivity in the whole context."""
+    mods = ["PNA.Props." + f for f in files]
+    with Lock("coq"):
+        rc, out = sh(["coqchk", "-o", "-silent", "-Q", ".", "PNA"] + mods, cwd=COQ, timeout=timeout)
+    fields = {}
+    for key, pat in (("axioms", r"\* Axioms:"), ("type_in_type", r"\* Constants/Inductives relying on type-in-type:"),
+                     ("unsafe_fix", r"\* Constants/Inductives relying on unsafe \(co\)fixpoints:"),
+                     ("assumed_positivity", r"\* Inductives whose positivity is assumed:")):
+        m = re.search(pat + r"(.*?)(?=\n\s*\n|\Z)", out, re.S)
+        fields[key] = " ".join(m.group(1).split()) if m else "?"
+    ok = rc == 0 and all(v == "<none>" for v in fields.values())
+    return ok, "; ".join("%s %s" % kv for kv in fields.items()), out
+
+
 def assumptions_ok(answer, allow=()):
     if answer.startswith("Closed under the global context"):
         return True
